@@ -104,6 +104,10 @@ pub struct Doc {
     /// lines end in CR LF instead of LF
     #[serde(default)]
     pub crlf: bool,
+    /// pad the text with one final comment line so that it is exactly this many bytes long
+    /// (a multiple of a buffer size), if it is shorter
+    #[serde(default)]
+    pub exact_size: Option<u32>,
     /// the text starts with a byte order mark (U+FEFF), as some editors write it
     #[serde(default)]
     pub bom: bool,
@@ -355,6 +359,22 @@ impl Doc {
         if self.bom {
             s.insert(0, '\u{feff}');
         }
+        if let Some(n) = self.exact_size {
+            let n = n as usize;
+            let nl_len = nl.len();
+            // room for "// " + filler + line break (and a line break before it if the text does not end in one)
+            let need_nl_before = !s.is_empty() && !s.ends_with('\n');
+            let overhead = 3 + nl_len + if need_nl_before { nl_len } else { 0 };
+            if s.len() + overhead <= n {
+                if need_nl_before {
+                    s.push_str(nl);
+                }
+                let fill = n - s.len() - 3 - nl_len;
+                s.push_str("// ");
+                s.push_str(&"=".repeat(fill));
+                s.push_str(nl);
+            }
+        }
         s
     }
 
@@ -601,6 +621,11 @@ impl Doc {
         if self.bom {
             let mut d = self.clone();
             d.bom = false;
+            out.push(d);
+        }
+        if self.exact_size.is_some() {
+            let mut d = self.clone();
+            d.exact_size = None;
             out.push(d);
         }
         if let Some((n, at_start)) = self.pad {
@@ -951,5 +976,6 @@ pub fn generate(rng: &mut Rng, p: &GenParams) -> Doc {
     let pad = if p.large_inputs && g.rng.chance(1, 100) { Some((*g.rng.pick(&[300u32, 2_000, 6_000]), g.rng.chance(1, 2))) } else { None };
     let crlf = p.crlf_eighths > 0 && g.rng.chance(p.crlf_eighths, 8);
     let bom = p.large_inputs && g.rng.chance(1, 40);
-    Doc { ds, de, tl_tag: tl, rm_tag: rm, nodes, final_newline, pad, crlf, bom }
+    let exact_size = if p.large_inputs && g.rng.chance(1, 100) { Some(*g.rng.pick(&[1_024u32, 4_096, 8_192, 16_384, 65_536, 131_072])) } else { None };
+    Doc { ds, de, tl_tag: tl, rm_tag: rm, nodes, final_newline, pad, crlf, bom, exact_size }
 }
